@@ -30,11 +30,27 @@ var urlSoup = []string{"%2f", "%2F", "/", "\\", ".", "..", ":", "@", "?", "#", "
 func HostileURL(r *rand.Rand) string {
 	switch r.Intn(15) {
 	case 13, 14:
+		return SoupURL(r)
+	}
+	return hostileURL(r)
+}
+
+// SoupURL: one to six pieces of the URL soup, half of the time after a scheme.
+func SoupURL(r *rand.Rand) string {
+	{
 		var b strings.Builder
+		if r.Intn(2) == 0 { // the soup after a scheme, with no, one or two slashes
+			b.WriteString(Pick(r, []string{"http:", "https:", "http:/", "https:/", "mailto:", "http://", "https://", "ftp:/", "x-app:", "x-app:/", "HTTPS:/", "data:"}))
+		}
 		for k := 1 + r.Intn(6); k > 0; k-- {
 			b.WriteString(urlSoup[r.Intn(len(urlSoup))])
 		}
 		return b.String()
+	}
+}
+
+func hostileURL(r *rand.Rand) string {
+	switch r.Intn(13) {
 	case 12: // fragment-only and query-only references with bytes no URL may contain
 		return Pick(r, []string{"#\x01", "#a\rb", "#\x7f", "#a\x00b", "#%zz", "#%", "#top\x0b", "?\x01", "?a=\x7f", "#a b", "#\t", "# ", "#a\fb", "?q=\x1b", "#é\x02"})
 	case 0:
